@@ -21,7 +21,7 @@ PROPS = {
     "C23": ("C23", {"rel:cost_lt"}),
     "C25": ("C25", {"internal"}),
     "C30": ("C30", {"rel:eq_outcome_c30"}),
-    "C31": ("C31", {"guard:nil", "guard:counters", "guard:cost"}),
+    "C31": ("C31", {"guard:nil", "guard:counters", "guard:cost", "guard:depth", "outcome:depth"}),
     "C13": ("C13", {"cap", "outcome"}),
 }
 
@@ -228,6 +228,8 @@ def check(prop, tier, seed):
         out.sample(s)
     seen_drift = {}
     for m in res["mismatches"]:
+        if m["kind"] == "outcome" and "SoftforkStackDepthExceeded" in json.dumps(m.get("detail")):
+            m = dict(m, kind="outcome:depth")     # the 20/21 nesting clause of C31
         if m["kind"] in kinds:
             v = C.Violation(prop, "%s case=%s variant=%s: %s" % (m["kind"], m["case"], m.get("variant"), json.dumps(m["detail"])[:500]),
                             {"mismatch": m})
